@@ -4,7 +4,7 @@
 d=$1; shift
 cd /verif
 git -C /repo diff --quiet || { echo "/repo has local changes, refusing"; exit 3; }
-git -C /repo apply "$d/patch.diff" || { echo "patch does not apply"; exit 3; }
+git -C /repo apply "$(realpath $d)/patch.diff" || { echo "patch does not apply"; exit 3; }
 trap 'git -C /repo checkout -- . ' EXIT
 for p in "$@"; do
   ./check $p > /tmp/seed_$(basename $d)_$p.log 2>&1; rc=$?
